@@ -457,23 +457,42 @@ Qed.
 (* token source                                                                                   *)
 (* ---------------------------------------------------------------------------------------------- *)
 Lemma gen_token_injective c1 n1 c2 n2 :
-  gen_token c1 n1 = gen_token c2 n2 -> cid c1 = cid c2 /\ n1 = n2.
-Proof. unfold gen_token. intro H. inversion H. auto. Qed.
+  gen_token c1 n1 = gen_token c2 n2 <-> cname c1 = cname c2 /\ nonce c1 = nonce c2 /\ n1 = n2.
+Proof.
+  unfold gen_token. split.
+  - intro H. inversion H. auto.
+  - intros [H1 [H2 H3]]. rewrite H1, H2, H3. reflexivity.
+Qed.
 
 Lemma gen_token_distinct c1 n1 c2 n2 :
-  (cid c1 <> cid c2 \/ n1 <> n2) -> gen_token c1 n1 <> gen_token c2 n2.
-Proof. intros H E. apply gen_token_injective in E. destruct E, H; contradiction. Qed.
+  (cname c1 <> cname c2 \/ nonce c1 <> nonce c2 \/ n1 <> n2) -> gen_token c1 n1 <> gen_token c2 n2.
+Proof.
+  intros H E. apply gen_token_injective in E. destruct E as [E1 [E2 E3]].
+  destruct H as [H|[H|H]]; contradiction.
+Qed.
+
+(* same-named instances: a token can only differ through the nonce or the counter value; in particular
+   their FIRST tokens (both counters at 1) are equal exactly when the nonces are *)
+Lemma gen_token_same_name c1 c2 n1 n2 :
+  cname c1 = cname c2 -> (gen_token c1 n1 = gen_token c2 n2 <-> nonce c1 = nonce c2 /\ n1 = n2).
+Proof. intro Hn. rewrite gen_token_injective. tauto. Qed.
 
 Lemma gen_token_impl_collides :
-  exists c1 c2 n, cid c1 <> cid c2 /\ gen_token_impl c1 n = gen_token_impl c2 n.
-Proof. exists (mkCtx 1 7), (mkCtx 2 7), 1%N. split; [discriminate | reflexivity]. Qed.
+  exists c1 c2 n, iid c1 <> iid c2 /\ gen_token_impl c1 n = gen_token_impl c2 n.
+Proof. exists (mkCtx 1 1 7), (mkCtx 2 2 7), 1%N. split; [discriminate | reflexivity]. Qed.
+
+(* the hypothesis about the constructor's nonces: among the instances the proxies live in, two with the
+   same name and the same nonce are the same instance (i.e. same-named distinct instances have
+   distinct nonces) *)
+Definition nonces_ok (cfg : nat -> ctxinst) : Prop :=
+  forall p q, cname (cfg p) = cname (cfg q) -> nonce (cfg p) = nonce (cfg q) -> iid (cfg p) = iid (cfg q).
 
 (* ---------------------------------------------------------------------------------------------- *)
 (* client programs with automatic tokens                                                          *)
 (* ---------------------------------------------------------------------------------------------- *)
 Definition sop_of (gen : ctxinst -> N -> token) (cfg : nat -> ctxinst) (s : pst) (o : pop) : op :=
   match o with
-  | PLock p None => OLock p (gen (cfg p) (N.succ (ctr s (cid (cfg p)))))
+  | PLock p None => OLock p (gen (cfg p) (N.succ (ctr s (iid (cfg p)))))
   | PLock p (Some u) => OLock p (cname (cfg p), TCustom u)
   | PUnlock p None => OUnlock p None
   | PUnlock p (Some u) => OUnlock p (Some (cname (cfg p), TCustom u))
@@ -484,7 +503,7 @@ Definition sop_of (gen : ctxinst -> N -> token) (cfg : nat -> ctxinst) (s : pst)
 
 Definition ctr_after (cfg : nat -> ctxinst) (s : pst) (o : pop) : N -> N :=
   match o with
-  | PLock p None => updN (ctr s) (cid (cfg p)) (N.succ (ctr s (cid (cfg p))))
+  | PLock p None => updN (ctr s) (iid (cfg p)) (N.succ (ctr s (iid (cfg p))))
   | _ => ctr s
   end.
 
@@ -504,41 +523,55 @@ Proof. simpl. destruct (pstep gen cfg s o) as [s1 x]. simpl. destruct (prun gen 
 Lemma ctr_after_mono cfg s o i : (ctr s i <= ctr_after cfg s o i)%N.
 Proof.
   destruct o as [p [u|]|p c|p|p|p y]; simpl; try lia.
-  unfold updN. destruct (N.eqb i (cid (cfg p))) eqn:E; [apply N.eqb_eq in E; subst|]; lia.
+  unfold updN. destruct (N.eqb i (iid (cfg p))) eqn:E; [apply N.eqb_eq in E; subst|]; lia.
 Qed.
 
-(* invariant: remembered automatic tokens are below the counter of their instance, and no two
-   proxies remember the same automatic token *)
-Record PInv (s : pst) : Prop := {
-  pi_below : forall p nm i n, ptok (psys s) p = Some (nm, TAuto i n) -> (n <= ctr s i)%N;
+(* invariant: every remembered automatic token was generated by an instance of cfg and lies below that
+   instance's counter; no two proxies remember the same automatic token *)
+Record PInv (cfg : nat -> ctxinst) (s : pst) : Prop := {
+  pi_below : forall p t, ptok (psys s) p = Some t -> is_auto t = true ->
+               exists r n, t = gen_token (cfg r) n /\ (n <= ctr s (iid (cfg r)))%N;
   pi_uniq  : forall p q t, p <> q -> ptok (psys s) p = Some t -> is_auto t = true ->
                            ptok (psys s) q <> Some t
 }.
 
-Lemma init_pinv : PInv init_pst.
+Lemma init_pinv cfg : PInv cfg init_pst.
 Proof. constructor; simpl; intros; discriminate. Qed.
 
 Lemma sop_lock_shape cfg s o q t :
   sop_of gen_token cfg s o = OLock q t ->
-  (t = gen_token (cfg q) (N.succ (ctr s (cid (cfg q)))) /\ o = PLock q None)
+  (t = gen_token (cfg q) (N.succ (ctr s (iid (cfg q)))) /\ o = PLock q None)
   \/ (is_auto t = false /\ ctr_after cfg s o = ctr s).
 Proof.
   destruct o as [p [u|]|p [u|]|p|p|p y]; simpl; intro H; inversion H; subst; auto.
 Qed.
 
-Lemma pstep_pinv cfg s o : PInv s -> PInv (fst (pstep gen_token cfg s o)).
+(* a remembered automatic token can never be the one instance c generates next *)
+Lemma fresh_not_remembered cfg s p q :
+  nonces_ok cfg -> PInv cfg s ->
+  ptok (psys s) p <> Some (gen_token (cfg q) (N.succ (ctr s (iid (cfg q))))).
 Proof.
-  intros [Hb Hu]. rewrite pstep_eq. cbn [fst].
+  intros Hn [Hb _] H. destruct (Hb p _ H eq_refl) as [r [n [E L]]].
+  apply gen_token_injective in E. destruct E as [E1 [E2 E3]].
+  assert (Hi : iid (cfg q) = iid (cfg r)) by (apply Hn; assumption).
+  rewrite <- Hi in L. lia.
+Qed.
+
+Lemma pstep_pinv cfg s o : nonces_ok cfg -> PInv cfg s -> PInv cfg (fst (pstep gen_token cfg s o)).
+Proof.
+  intros Hn Hinv. pose proof Hinv as [Hb Hu]. rewrite pstep_eq. cbn [fst].
   set (so := sop_of gen_token cfg s o).
-  assert (Hb' : forall p nm i n,
-             ptok (fst (sys_step (psys s) so)) p = Some (nm, TAuto i n) -> (n <= ctr_after cfg s o i)%N).
-  { intros p nm i n H.
-    destruct (ptok_after (psys s) so p) as [E|[E|[t [E1 E2]]]].
-    - rewrite E in H. apply Hb in H. pose proof (ctr_after_mono cfg s o i). lia.
+  assert (Hb' : forall p t, ptok (fst (sys_step (psys s) so)) p = Some t -> is_auto t = true ->
+             exists r n, t = gen_token (cfg r) n /\ (n <= ctr_after cfg s o (iid (cfg r)))%N).
+  { intros p t H Ha.
+    destruct (ptok_after (psys s) so p) as [E|[E|[t' [E1 E2]]]].
+    - rewrite E in H. destruct (Hb p t H Ha) as [r [n [Et L]]]. exists r, n. split; [exact Et|].
+      pose proof (ctr_after_mono cfg s o (iid (cfg r))). lia.
     - rewrite E in H. discriminate.
-    - rewrite E2 in H. inversion H; subst t. unfold so in E1.
-      apply sop_lock_shape in E1. destruct E1 as [[E1 E3]|[E1 _]]; [|discriminate].
-      unfold gen_token in E1. inversion E1; subst. simpl. unfold updN. rewrite N.eqb_refl. lia. }
+    - rewrite E2 in H. inversion H; subst t'. unfold so in E1.
+      apply sop_lock_shape in E1. destruct E1 as [[E1 E3]|[E1 _]]; [|congruence].
+      subst o t. exists p, (N.succ (ctr s (iid (cfg p)))). split; [reflexivity|].
+      cbn [ctr_after]. unfold updN. rewrite N.eqb_refl. lia. }
   constructor; cbn [psys ctr]; [exact Hb'|].
   intros p q t Hpq Hp Ha Hq.
   destruct (ptok_after (psys s) so p) as [Ep|[Ep|[tp [Ep1 Ep2]]]];
@@ -548,27 +581,37 @@ Proof.
   - (* q just locked with a fresh token that p already remembers: impossible *)
     rewrite Ep in Hp. rewrite Eq2 in Hq. inversion Hq; subst tq. unfold so in Eq1.
     apply sop_lock_shape in Eq1. destruct Eq1 as [[E1 _]|[E1 _]]; [|congruence].
-    subst t. unfold gen_token in Hp. apply Hb in Hp. lia.
+    subst t. exact (fresh_not_remembered cfg s p q Hn Hinv Hp).
   - rewrite Ep2 in Hp. inversion Hp; subst tp. rewrite Eq in Hq. unfold so in Ep1.
     apply sop_lock_shape in Ep1. destruct Ep1 as [[E1 _]|[E1 _]]; [|congruence].
-    subst t. unfold gen_token in Hq. apply Hb in Hq. lia.
+    subst t. exact (fresh_not_remembered cfg s q p Hn Hinv Hq).
   - rewrite Ep1 in Eq1. inversion Eq1. contradiction.
 Qed.
 
-Lemma prun_pinv cfg ops : forall s, PInv s -> PInv (fst (prun gen_token cfg s ops)).
+Lemma prun_pinv cfg ops : nonces_ok cfg ->
+  forall s, PInv cfg s -> PInv cfg (fst (prun gen_token cfg s ops)).
 Proof.
-  induction ops as [|o r IH]; intros s H; [exact H|].
-  rewrite prun_cons. cbn [fst]. apply IH. apply pstep_pinv. exact H.
+  intro Hn. induction ops as [|o r IH]; intros s H; [exact H|].
+  rewrite prun_cons. cbn [fst]. apply IH. apply pstep_pinv; assumption.
+Qed.
+
+Lemma auto_tokens_unique cfg ops p q t :
+  nonces_ok cfg ->
+  let s := fst (prun gen_token cfg init_pst ops) in
+  p <> q -> ptok (psys s) p = Some t -> is_auto t = true -> ptok (psys s) q <> Some t.
+Proof.
+  intro Hn. cbv zeta. exact (pi_uniq _ _ (prun_pinv cfg ops Hn init_pst (init_pinv cfg)) p q t).
 Qed.
 
 (* while an automatic token owns the object, calls through every OTHER proxy are refused *)
 Lemma auto_lock_exclusive cfg ops p q t x :
+  nonces_ok cfg ->
   let s := fst (prun gen_token cfg init_pst ops) in
   owner (psys s) = Some t -> is_auto t = true -> ptok (psys s) p = Some t -> q <> p ->
   pstep gen_token cfg s (PCall q x) = (s, OutExec false).
 Proof.
-  cbv zeta. intros Ho Ha Hp Hq.
-  pose proof (prun_pinv cfg ops init_pst init_pinv) as [_ Hu].
+  intro Hn. cbv zeta. intros Ho Ha Hp Hq.
+  pose proof (prun_pinv cfg ops Hn init_pst (init_pinv cfg)) as [_ Hu].
   set (s := fst (prun gen_token cfg init_pst ops)) in *.
   assert (Hne : ptok (psys s) q <> Some t) by (apply (Hu p q t); auto).
   rewrite pstep_eq. cbn [sop_of].
@@ -586,45 +629,70 @@ Fixpoint generated (gen : ctxinst -> N -> token) (cfg : nat -> ctxinst) (s : pst
   | o :: r =>
       let s1 := fst (pstep gen cfg s o) in
       match o with
-      | PLock p None => gen (cfg p) (N.succ (ctr s (cid (cfg p)))) :: generated gen cfg s1 r
+      | PLock p None => gen (cfg p) (N.succ (ctr s (iid (cfg p)))) :: generated gen cfg s1 r
       | _ => generated gen cfg s1 r
       end
   end.
 
 Lemma generated_above cfg ops : forall s t,
-  In t (generated gen_token cfg s ops) -> exists nm i n, t = (nm, TAuto i n) /\ (ctr s i < n)%N.
+  In t (generated gen_token cfg s ops) ->
+  exists r n, t = gen_token (cfg r) n /\ (ctr s (iid (cfg r)) < n)%N.
 Proof.
   induction ops as [|o r IH]; intros s t H; [contradiction|].
   cbn [generated] in H.
   assert (Hrest : In t (generated gen_token cfg (fst (pstep gen_token cfg s o)) r) ->
-                  exists nm i n, t = (nm, TAuto i n) /\ (ctr s i < n)%N).
-  { intro H'. apply IH in H'. destruct H' as [nm [i [n [E L]]]]. exists nm, i, n. split; [exact E|].
-    rewrite pstep_eq in L. cbn [fst ctr] in L. pose proof (ctr_after_mono cfg s o i). lia. }
+                  exists r' n, t = gen_token (cfg r') n /\ (ctr s (iid (cfg r')) < n)%N).
+  { intro H'. apply IH in H'. destruct H' as [r' [n [E L]]]. exists r', n. split; [exact E|].
+    rewrite pstep_eq in L. cbn [fst ctr] in L. pose proof (ctr_after_mono cfg s o (iid (cfg r'))). lia. }
   destruct o as [p [u|]|p c|p|p|p y]; auto.
   destruct H as [H|H]; auto.
-  subst t. unfold gen_token. eexists _, _, _. split; [reflexivity|]. lia.
+  subst t. exists p, (N.succ (ctr s (iid (cfg p)))). split; [reflexivity|]. lia.
 Qed.
 
-Lemma generated_nodup cfg ops : forall s, NoDup (generated gen_token cfg s ops).
+Lemma generated_nodup cfg ops : nonces_ok cfg -> forall s, NoDup (generated gen_token cfg s ops).
 Proof.
-  induction ops as [|o r IH]; intro s; [constructor|].
+  intro Hn. induction ops as [|o r IH]; intro s; [constructor|].
   cbn [generated]. destruct o as [p [u|]|p c|p|p|p y]; auto.
   constructor; [|apply IH].
-  intro H. apply generated_above in H. destruct H as [nm [i [n [E L]]]].
-  unfold gen_token in E. inversion E; subst.
-  rewrite pstep_eq in L. cbn [fst ctr ctr_after] in L. unfold updN in L. rewrite N.eqb_refl in L. lia.
+  intro H. apply generated_above in H. destruct H as [r' [n [E L]]].
+  apply gen_token_injective in E. destruct E as [E1 [E2 E3]].
+  assert (Hi : iid (cfg p) = iid (cfg r')) by (apply Hn; assumption).
+  rewrite pstep_eq in L. cbn [fst ctr ctr_after] in L. unfold updN in L.
+  rewrite <- Hi in L. rewrite N.eqb_refl in L. lia.
 Qed.
 
-(* faithful token source: two same-named client contexts both obtain the lock *)
+(* token source of the tree BEFORE the repair: two same-named client contexts both obtain the lock *)
 Lemma auto_lock_exclusive_refuted :
   exists cfg ops p q t,
     let s := fst (prun gen_token_impl cfg init_pst ops) in
-    cid (cfg p) <> cid (cfg q) /\ p <> q /\
+    iid (cfg p) <> iid (cfg q) /\ p <> q /\
     owner (psys s) = Some t /\ is_auto t = true /\ ptok (psys s) p = Some t /\ ptok (psys s) q = Some t /\
     snd (prun gen_token_impl cfg init_pst ops) = [OutBool true; OutBool true] /\
     snd (pstep gen_token_impl cfg s (PCall p 1)) = OutExec true /\
     snd (pstep gen_token_impl cfg s (PCall q 2)) = OutExec true.
 Proof.
-  exists (cfg_of [mkCtx 1 7; mkCtx 2 7]), [PLock 0 None; PLock 1 None], 0, 1, (7%N, TAuto 0 1).
+  exists (cfg_of [mkCtx 1 1 7; mkCtx 2 2 7]), [PLock 0 None; PLock 1 None], 0, 1, (7%N, TAuto 0 1).
   vm_compute. repeat split; discriminate.
+Qed.
+
+(* the nonce hypothesis is NECESSARY, also for the repaired generator: two distinct same-named instances
+   that drew the same nonce (e.g. from an equally seeded PRNG) both obtain the lock *)
+Lemma equal_nonces_break_exclusion :
+  exists cfg ops p q t,
+    let s := fst (prun gen_token cfg init_pst ops) in
+    iid (cfg p) <> iid (cfg q) /\ cname (cfg p) = cname (cfg q) /\ nonce (cfg p) = nonce (cfg q) /\ p <> q /\
+    owner (psys s) = Some t /\ is_auto t = true /\ ptok (psys s) p = Some t /\ ptok (psys s) q = Some t /\
+    snd (prun gen_token cfg init_pst ops) = [OutBool true; OutBool true] /\
+    snd (pstep gen_token cfg s (PCall p 1)) = OutExec true /\
+    snd (pstep gen_token cfg s (PCall q 2)) = OutExec true.
+Proof.
+  exists (cfg_of [mkCtx 1 5 7; mkCtx 2 5 7]), [PLock 0 None; PLock 1 None], 0, 1, (7%N, TAuto 5 1).
+  vm_compute. repeat split; discriminate.
+Qed.
+
+(* the hypothesis is satisfiable: two same-named instances with different nonces *)
+Lemma nonces_ok_example : nonces_ok (cfg_of [mkCtx 1 11 7; mkCtx 2 12 7]).
+Proof.
+  intros p q. unfold cfg_of.
+  destruct p as [|[|[|p]]], q as [|[|[|q]]]; simpl; intros H1 H2; try reflexivity; discriminate.
 Qed.
